@@ -563,6 +563,10 @@ class HostConnection(object):
 
     def _set_keyspace_for_all_conns(self, keyspace, callback):
         if self.is_shutdown or not self._connection:
+            # nothing to switch right now: a connection opened later selects
+            # self._keyspace, and the caller is waiting for this pool's answer
+            self._keyspace = keyspace
+            callback(self, [])
             return
 
         def connection_finished_setting_keyspace(conn, error):
